@@ -101,6 +101,9 @@ def curated():
     a(make('fx_pod', [P('f', 'pod12'), P('p', 'u32')], 'ae'))
     a(make('fx_only_u8', [P('f', 'u8')], 'none'))  # elements may have zero bytes (fixed size 0)
     a(make('fx_only_trk', [P('f', 'trk9'), P('f', 'u16')], 'all'))
+    a(make('fx_only_u32', [P('f', 'u32')], 'ae'))   # single-parameter lists: element < must be the value type's <
+    a(make('pl_only_u16', [P('p', 'u16')], 'none'))
+    a(make('fx_only_f32', [P('f', 'f32', 8)], 'none'))
     a(make('fx_ptr', [P('p', 'ptr'), P('f', 'ptr')], 'none'))
     a(make('fx_pad_u8', [P('p', 'u8'), P('f', 'u16', 2), P('p', 'u8', 4)], 'all'))
     # trailing-alignment propagation across a FixedSize, an unaligned plain parameter and an aligned one
@@ -130,6 +133,15 @@ def curated():
     a(make('str_var', [P('p', 'sz', 8), P('v', 'str'), P('p', 'str')], 'none'))
     a(make('up_fx', [P('f', 'up'), P('p', 'up')], 'ae'))
     a(make('up_var', [P('p', 'sz', 8), P('v', 'up'), P('p', 'up')], 'none'))
+    # layout family: a packed plain parameter at an odd offset followed by an aligned one (compile-time trailing
+    # alignment reasoning); only used by the layout properties C02-C05
+    for t2 in ('u16', 'u32', 'u64'):
+        for al in (2, 4, 8):
+            if al <= SIZEOF[t2]:
+                ta = {2: 'u16', 4: 'f32', 8: 'u64'}[al]
+                a(make('lay_u8_%s_a%d' % (t2, al), [P('p', 'u8'), P('p', t2), P('p', ta, al)], 'ae', ['layout']))
+    a(make('lay_var_tail', [P('p', 'u32', 4), P('v', 'u32', 4), P('p', 'ch'), P('p', 'u32')], 'none', ['layout']))
+    a(make('lay_fx_tail', [P('f', 'u8'), P('p', 'u32'), P('p', 'u16', 2), P('f', 'u16'), P('p', 'u64', 8)], 'none', ['layout']))
     # the eight propagation-trait combinations x SOCCC same/derived (C08)
     for bits in range(8):
         pocca, pocma, pocs = bits & 1, (bits >> 1) & 1, (bits >> 2) & 1
